@@ -11,7 +11,7 @@
    C01_zero_work_refuted (known finding C01-zero-work-child-of-tip).  The theorems below are the statement
    for histories of positive-work headers - the `_partial` of the design. *)
 From Coq Require Import ZArith NArith List.
-From BHS Require Import Work Store Chain ChainSpec ChainAdd ChainMain.
+From BHS Require Import Work Store Chain ChainSpec ChainAdd ChainMain ChainGeneral.
 Import ListNotations.
 Open Scope Z_scope.
 
@@ -43,6 +43,20 @@ Proof. exact C01_outcomes. Qed.
 Theorem C01_resubmit_noop : forall f s h x, by_hash s (s_id h) = Some x -> add f s h = (s, Duplicate).
 Proof. exact resubmit_noop. Qed.
 
+(* For EVERY history - any work values, zero-work headers included - the stored table is the arrival records
+   labelled from the tip that the code's own rule produces (ChainAdd.tip_rule: an orphan never moves the tip, a child
+   of the tip always becomes the tip, any other connected header becomes the tip iff its cumulative work is strictly
+   greater), and the repository reports that tip. *)
+Theorem C01_every_history : forall f gid gpl hs, gid <> 0%N -> nonzero_ids hs ->
+  run f gid gpl hs = rule_store (spec_run_from f (map dummy (init gid gpl)) hs) /\
+  option_map id (tipB (run f gid gpl hs)) = Some (tip_after (spec_run_from f (map dummy (init gid gpl)) hs)).
+Proof. exact C01_general. Qed.
+
+(* ... and for positive-work histories that tip is the specification's best header *)
+Theorem C01_rule_tip_is_best : forall f gid gpl hs, gid <> 0%N -> positive_work hs -> nonzero_ids hs ->
+  tip_after (spec_run_from f (map dummy (init gid gpl)) hs) = spec_tip (spec_run_from f (init gid gpl) hs).
+Proof. exact tip_after_is_best. Qed.
+
 (* the unrestricted statement is refuted by a two-header history with a zero-work header on the tip *)
 Theorem C01_full_refuted :
   nonzero_ids zw_hist /\ run [] 1 (ex_pl 486604799) zw_hist <> spec_store (spec_run_from [] (init 1 (ex_pl 486604799)) zw_hist).
@@ -53,4 +67,6 @@ Print Assumptions C01_tip_partial.
 Print Assumptions C01_best_meaning.
 Print Assumptions C01_answered_partial.
 Print Assumptions C01_resubmit_noop.
+Print Assumptions C01_every_history.
+Print Assumptions C01_rule_tip_is_best.
 Print Assumptions C01_full_refuted.
